@@ -1,23 +1,24 @@
 import FiberModel.C04.MoreLemmas
+import FiberModel.C04.Compose
 /-
 C04 — property theorems. `flatten` is the model of what the repaired code builds (register,
 addRoute's merge, mount placeholders, processSubAppsRoutes' splice / addPrefixToRoute / renumbering);
 `flattenSpec` registers the same definition tree with every mount replaced by a group with the mount
 prefix at the same position. All statements are for every definition tree (any nesting of apps,
-groups and mounts, mounts from groups, any prefixes and paths), every routing configuration of the
-root and of the sub-apps, every opaque parser `po`, and every method index `k < nMethods`.
+groups and mounts, mounts from groups, any prefixes and paths — empty ones included), every routing
+configuration of the root and of the sub-apps, every opaque parser `po`, and every method index
+`k < nMethods`.
 
-FULL STATEMENT (what the property sentence says; false on the code as it stands, see K1):
+THE PROPERTY AT TABLE LEVEL (full strength, no region excluded, no assumption on the parser):
 
     theorem mount_eq_group (cfg po items) (k) (hk : k < nMethods) :
         expandObs (flatten cfg po items k) = expandObs (flattenSpec cfg po items k)
 
-Proved:
-  * `mount_eq_group_paths`    — full strength on Paths for every tree outside `emptyDisagrees`
-                                 (no empty-path registration at a prefix not ending in one slash);
-  * `mount_eq_group_partial`  — the full statement under `K1 cfg items = false` (+ the parser's
-                                 indifference to trailing slashes);
-  * `mount_eq_group_witness_K1` — the full statement is false on the recorded witness.
+Until the repair F5 (known/C04.json) this was `mount_eq_group_partial`, proved only outside the
+known finding K1 (empty-path registration inside a mounted app under StrictRouting or a slashes-only
+prefix) and under an assumption on the parser (`TrailInv`); `mount_eq_group_fixed_K1_witness` shows
+the statement on K1's former witness. The composition with the real matcher / dispatcher models of
+C01–C03 is in `Compose.lean`.
 -/
 namespace C04
 open B Known
@@ -39,76 +40,78 @@ example : getGroupPath (getGroupPath [] (b "api/")) (b "") = b "/api/" ∧
 
 /-! ### mounting = grouping -/
 
-/-- Paths: outside the empty-path corner the two compositions hold, per method and per handler, the
-very same (use, Path, handler) entries in the same order. Full strength on that domain: no
-assumption on the configuration or the parser. -/
+/-- Paths: the two compositions hold, per method and per handler, the very same (use, Path, handler)
+entries in the same order. Full strength: every tree, no assumption on the configuration or the
+parser. -/
 theorem mount_eq_group_paths (cfg : Cfg) (po : Bytes → List Bytes) (items : List Item)
-    (hdom : emptyDisagrees items = false) (k : Nat) (hk : k < nMethods) :
-    expand (flatten cfg po items k) = expand (flattenSpec cfg po items k) := by
-  have h := flatten_rel (fun a b => a = b) (fun S => !emptyAgree S) (fun _ => rfl)
-    (fun S hS => emptyAgree_eq (by simpa using hS)) cfg po items k hk hdom
-  have := h.map_eq (f := id) (g := id) (fun x y hxy => by
-    obtain ⟨h1, h2, h3⟩ := hxy
-    exact Prod.ext h1 (Prod.ext h3 h2))
-  simpa using this
+    (k : Nat) (hk : k < nMethods) :
+    expand (flatten cfg po items k) = expand (flattenSpec cfg po items k) :=
+  flatten_expand_eq cfg po items k hk
 
-/-- same, for everything the matcher reads (a corollary: those fields are functions of the Path) -/
-theorem mount_eq_group_paths_obs (cfg : Cfg) (po : Bytes → List Bytes) (items : List Item)
-    (hdom : emptyDisagrees items = false) (k : Nat) (hk : k < nMethods) :
+/-- The property at table level: for every method, the mounted composition and the group
+composition hold — handler by handler, in order — routes that agree on everything `Route.match`
+reads (use flag, parsed pattern and the text its constraints are read from, clean path, parameter keys). -/
+theorem mount_eq_group (cfg : Cfg) (po : Bytes → List Bytes) (items : List Item)
+    (k : Nat) (hk : k < nMethods) :
     expandObs (flatten cfg po items k) = expandObs (flattenSpec cfg po items k) := by
-  rw [expandObs_eq (routeOK_flatten cfg po items k), mount_eq_group_paths cfg po items hdom k hk]
+  rw [expandObs_eq (routeOK_flatten cfg po items k), mount_eq_group_paths cfg po items k hk]
   exact (expandObs_eq (routeOK_flatten cfg po (unmountItems items) k)).symm
 
-/-- The property, outside the region of the known finding K1: for every method, the mounted
-composition and the group composition hold — handler by handler, in order — routes that agree on
-everything `Route.match` reads (use flag, parsed pattern, clean path, parameter keys). -/
-theorem mount_eq_group_partial (cfg : Cfg) (po : Bytes → List Bytes) (items : List Item)
-    (hpo : TrailInv po) (hK : K1 cfg items = false) (k : Nat) (hk : k < nMethods) :
-    expandObs (flatten cfg po items k) = expandObs (flattenSpec cfg po items k) := by
-  have h := flatten_rel (RawRel cfg) (badPrefix cfg) (fun _ => Or.inl rfl)
-    (rawRel_of_not_bad cfg) cfg po items k hk hK
-  rw [expandObs_eq (routeOK_flatten cfg po items k),
-    show expandObs (flattenSpec cfg po items k) = (expand (flattenSpec cfg po items k)).map (obsOf cfg po) from
-      expandObs_eq (routeOK_flatten cfg po (unmountItems items) k)]
-  exact h.map_eq (fun _ _ hxy => obsOf_eq_of_rawRel hpo hxy)
+/-- A sub-app's own routing configuration (CaseSensitive, StrictRouting — the model's `scfg`) is not
+used for its routes once it is mounted: `addPrefixToRoute` re-prettifies and re-parses every clone
+with the PARENT's configuration. Two trees that differ only in sub-app configurations (they unmount to
+the same tree) serve tables that agree on everything the matcher reads. -/
+theorem subapp_config_irrelevant (cfg : Cfg) (po : Bytes → List Bytes) (items items' : List Item)
+    (h : unmountItems items = unmountItems items') (k : Nat) (hk : k < nMethods) :
+    expandObs (flatten cfg po items k) = expandObs (flatten cfg po items' k) := by
+  rw [mount_eq_group cfg po items k hk, mount_eq_group cfg po items' k hk]
+  unfold flattenSpec
+  rw [h]
+
+example : unmountItems [.mount (b "/API") ⟨true, true⟩ [.route [0] (b "/X/") [1]]] =
+    unmountItems [.mount (b "/API") ⟨false, false⟩ [.route [0] (b "/X/") [1]]] := rfl
 
 /-- params of the witnesses below: no parameters anywhere -/
 def noParams : Bytes → List Bytes := fun _ => []
 
-theorem trailInv_noParams : TrailInv noParams := fun _ _ _ _ => rfl
-
-/-- non-vacuity: a nested tree with a parameterised and an upper-case prefix, a mount from a group, an
-empty path under a non-strict root — K1 does not fire, `emptyDisagrees` does -/
+/-- non-vacuity: a nested tree with a parameterised and an upper-case prefix, a mount from a group,
+empty paths inside mounted apps, a StrictRouting root — inside the former K1 region -/
 def sampleTree : List Item :=
   [.use [] [1],
    .group (b "/V1/") [2] [.mount (b ":tenant") ⟨true, true⟩
       [.use [] [3], .route [0] (b "x") [4, 5], .mount (b "/deep/") ⟨false, false⟩ [.route [0, 2] [] [6]]]],
    .route [0] (b "/v1/:tenant/x") [7]]
 
-example : K1 ⟨false, false⟩ sampleTree = false ∧ emptyDisagrees sampleTree = true := by decide
+example : F5region ⟨false, true⟩ sampleTree = true := by decide
 
-example : (expand (flatten ⟨false, false⟩ noParams sampleTree 0)).map (fun e => (e.2.1, e.2.2)) =
-    [(b "/", 1), (b "/V1/", 2), (b "/V1/:tenant/", 3), (b "/V1/:tenant/x", 4), (b "/V1/:tenant/x", 5),
-     (b "/V1/:tenant/deep/", 6), (b "/v1/:tenant/x", 7)] := by decide
-
-/-- in the group composition the sub-app's middleware is stored as "/V1/:tenant" (mounted:
-"/V1/:tenant/"), yet both agree on what the matcher reads -/
-example : (expand (flattenSpec ⟨false, false⟩ noParams sampleTree 0)).map (fun e => (e.2.1, e.2.2)) =
+/-- the sub-app's path-less middleware (handler 3) sits at the mount prefix itself, and the
+path-less route of the nested app (handler 6) at its prefix as given, trailing slash included -/
+example : (expand (flatten ⟨false, true⟩ noParams sampleTree 0)).map (fun e => (e.2.1, e.2.2)) =
     [(b "/", 1), (b "/V1/", 2), (b "/V1/:tenant", 3), (b "/V1/:tenant/x", 4), (b "/V1/:tenant/x", 5),
      (b "/V1/:tenant/deep/", 6), (b "/v1/:tenant/x", 7)] := by decide
 
-/-- K1's witness (known/C04.json): StrictRouting, `root.Use("/api", sub)`, `sub.Get("", h1)` -/
+example : (expand (flattenSpec ⟨false, true⟩ noParams sampleTree 0)).map (fun e => (e.2.1, e.2.2)) =
+    [(b "/", 1), (b "/V1/", 2), (b "/V1/:tenant", 3), (b "/V1/:tenant/x", 4), (b "/V1/:tenant/x", 5),
+     (b "/V1/:tenant/deep/", 6), (b "/v1/:tenant/x", 7)] := by decide
+
+/-- K1's former witness (known/C04.json, F5): StrictRouting, `root.Use("/api", sub)`, `sub.Get("", h1)` -/
 def witnessK1 : List Item := [.mount (b "/api") ⟨false, false⟩ [.route [0] [] [1]]]
 
-example : K1 ⟨false, true⟩ witnessK1 = true := by decide
+example : F5region ⟨false, true⟩ witnessK1 = true := by decide
 
-/-- the full statement fails on the witness: the mounted route is "/api/", the grouped one "/api" -/
-theorem mount_eq_group_witness_K1 :
-    ¬ (expandObs (flatten ⟨false, true⟩ noParams witnessK1 0) =
-       expandObs (flattenSpec ⟨false, true⟩ noParams witnessK1 0)) := by decide
+/-- on the former witness both compositions now hold the one route "/api" (before F5 the mounted
+one was "/api/") -/
+theorem mount_eq_group_fixed_K1_witness :
+    expandObs (flatten ⟨false, true⟩ noParams witnessK1 0) = [⟨false, b "/api", b "/api", b "/api", [], 1⟩] ∧
+    expandObs (flattenSpec ⟨false, true⟩ noParams witnessK1 0) = [⟨false, b "/api", b "/api", b "/api", [], 1⟩] := by
+  decide
 
-/-- the same tree without StrictRouting is outside K1 and the theorem applies -/
-example : K1 ⟨false, false⟩ witnessK1 = false := by decide
+/-- "" and "/" registered one after the other in a mounted app stay two routes (`addRoute` does not
+merge them), as under a group: "/api" and "/api/" -/
+example : (flatten ⟨false, true⟩ noParams [.mount (b "/api") ⟨false, false⟩ [.route [0] [] [1], .route [0] (b "/") [2]]] 0).map
+      (fun r => (r.raw, r.handlers)) = [(b "/api", [1]), (b "/api/", [2])] ∧
+    (flattenSpec ⟨false, true⟩ noParams [.mount (b "/api") ⟨false, false⟩ [.route [0] [] [1], .route [0] (b "/") [2]]] 0).map
+      (fun r => (r.raw, r.handlers)) = [(b "/api", [1]), (b "/api/", [2])] := by decide
 
 /-! ### groups / `Route(path)` = spelling the full path -/
 
@@ -136,25 +139,98 @@ theorem flatten_pos_sorted (cfg : Cfg) (po : Bytes → List Bytes) (items : List
   flatten_pos_sorted' cfg po items k
 
 /-- every route of the table carries the fields `register` derives from its Path — in particular
-the mounted routes' parameter keys, parser, and root/star shortcuts (the three repaired defects) -/
+the mounted routes' parameter keys, parser, and root/star shortcuts (the repaired defects F1–F3) —
+and its Path is its registration path normalised as `register` normalises it (F5) -/
 theorem flatten_fields (cfg : Cfg) (po : Bytes → List Bytes) (items : List Item) (k : Nat) :
     ∀ r ∈ flatten cfg po items k,
       r.pretty = prettyOf cfg r.raw ∧ r.path = cleanOf cfg r.raw ∧ r.params = po r.raw ∧
-      r.root = (cleanOf cfg r.raw == [47]) ∧ r.star = (prettyOf cfg r.raw == [47, 42]) :=
+      r.root = (cleanOf cfg r.raw == [47]) ∧ r.star = (prettyOf cfg r.raw == [47, 42]) ∧
+      r.raw = rawOf r.orig ∧ r.written = writtenOf cfg r.raw :=
   routeOK_flatten cfg po items k
 
-/-- Equal answers: for any matcher that reads what `Route.match` reads and any handler behaviour
-(which handlers call Next), both compositions run the same chain — the same handlers with the same
-match results in the same order — for every request and method, outside K1. -/
-theorem mount_answers_eq {V : Type} (mt : Bool → Bytes → Bytes → List Bytes → Option V) (stops : Nat → Bool)
+/-- Equal answers for an abstract matcher: for any matcher that reads what `Route.match` reads and
+any handler behaviour (which handlers call Next), both compositions run the same chain — the same
+handlers with the same match results in the same order — for every request and method.
+(`Compose.lean` instantiates the matcher with C02's model of `Route.match`.) -/
+theorem mount_answers_eq {V : Type} (mt : Bool → Bytes → Bytes → Bytes → List Bytes → Option V) (stops : Nat → Bool)
     (cfg : Cfg) (po : Bytes → List Bytes) (items : List Item) (hwf : wfItems items = true)
-    (hpo : TrailInv po) (hK : K1 cfg items = false) (k : Nat) (hk : k < nMethods) :
+    (k : Nat) (hk : k < nMethods) :
     run mt stops (flatten cfg po items k) = run mt stops (flattenSpec cfg po items k) := by
   have e1 := run_eq_runE mt stops _ (ne_flatten cfg po items hwf k)
   have e2 : run mt stops (flattenSpec cfg po items k) = runE mt stops (expandObs (flattenSpec cfg po items k)) :=
     run_eq_runE mt stops _ (ne_flatten cfg po (unmountItems items) (wf_unmountItems items hwf) k)
-  rw [e1, e2, mount_eq_group_partial cfg po items hpo hK k hk]
+  rw [e1, e2, mount_eq_group cfg po items k hk]
 
 example : wfItems sampleTree = true := by decide
+
+/-! ### equal answers under the modelled matcher (C02) and dispatcher (C01) -/
+
+/-- Equal answers under C02's model of `Route.match`: with the opaque parser instantiated by
+C02's `parseRoute` and the abstract matcher by C02's `routeMatch` (on every served route it is
+`routeMatch` of the route C02's `register` builds: `mtC02_eq_routeMatch`, `register_bridge`), both
+compositions run the same handlers with the same parameter values, in the same order, for every
+request `(det, path)`, every constraint checker and every handler behaviour. -/
+theorem mount_answers_eq_C02 (chk : C02.Constraint → Bytes → Bool) (det path : Bytes) (stops : Nat → Bool)
+    (cfg : Cfg) (items : List Item) (hwf : wfItems items = true) (k : Nat) (hk : k < nMethods) :
+    run (mtC02 chk det path) stops (flatten cfg poC02 items k) =
+      run (mtC02 chk det path) stops (flattenSpec cfg poC02 items k) :=
+  mount_answers_eq (mtC02 chk det path) stops cfg poC02 items hwf k hk
+
+/-- every route either composition serves is matched as C02's `register`ed route is matched -/
+theorem served_route_is_registered (chk : C02.Constraint → Bytes → Bool) (cfg : Cfg) (ue : Bool) (det path : Bytes)
+    (items : List Item) (k : Nat) (r : Route) (hr : r ∈ flatten cfg poC02 items k)
+    (r2 : C02.Route) (h2 : C02.register (cfg2 cfg ue) r.use r.orig = some r2) :
+    r2.pathRaw = r.raw ∧ r2.params = r.params ∧
+    mtC02 chk det path r.use r.pretty r.written r.path r.params = C02.routeMatch chk r2 det path := by
+  have hok := routeOK_flatten cfg poC02 items k r hr
+  obtain ⟨hb, hp⟩ := register_bridge cfg ue r hok
+  have h3 := h2
+  rw [hb] at h3
+  refine ⟨?_, hp r2 h3, mtC02_eq_routeMatch chk cfg ue det path r hok r2 h2⟩
+  unfold toC02 at h3
+  split at h3
+  · cases h3; rfl
+  · cases h3
+
+/-- The property for the modelled router end to end: C01's dispatcher with C02's matcher and
+`buildTree`'s bucket key, run on the table the mounted composition serves, answers every request
+exactly as C01's model of the group composition — same handler trace, same end (reply, handler
+error, 404, or 405 with the same Allow set) — and both meet C01's specification `linear`. No
+locality hypothesis is left: it is `local_keyC02` (`C02.match_same_bucket`). Remaining hypotheses:
+every registration has a handler and lists no method twice (the public API's own preconditions /
+C01's `WFReg`), handlers do not override path or method (C01's `dispatch_refines_linear`). -/
+theorem mount_dispatch_eq_group_C02 {α : Type} (chk : C02.Constraint → Bytes → Bool) (cfg : Cfg) (ue : Bool)
+    (setp : Bytes × Bytes → α → Option (Bytes × Bytes)) (scr : Nat → C01.Script α)
+    (hscr : ∀ i, (scr i).isOverride = false) (po : Bytes → List Bytes) (items : List Item)
+    (hwf : wfItems items = true) (hnd : nodupMs items = true) (m : Nat) (hm : m < nMethods) (p : Bytes × Bytes) :
+    C01.dispatchS (envC02 chk cfg ue setp) (stacksOfTable scr (keyC02 cfg ue) (flatten cfg po items)) false
+        (stacksOfTable scr (keyC02 cfg ue) (flatten cfg po items) : C01.Stacks α).fuel m p =
+      C01.dispatch (envC02 chk cfg ue setp) (regsItems scr (keyC02 cfg ue) none items) m p ∧
+    C01.dispatch (envC02 chk cfg ue setp) (regsItems scr (keyC02 cfg ue) none items) m p =
+      .ok (C01.linear (envC02 chk cfg ue setp) (regsItems scr (keyC02 cfg ue) none items) m p) :=
+  mount_dispatch_eq_group scr (keyC02 cfg ue) (envC02 chk cfg ue setp) rfl hscr
+    (local_keyC02 chk cfg ue setp) cfg po items hwf hnd m hm p
+
+/-- non-vacuity: the hypotheses hold for the sample trees … -/
+example : wfItems sampleTree = true ∧ nodupMs sampleTree = true ∧ hasMountTop sampleTree = true ∧
+    wfItems witnessK1 = true ∧ nodupMs witnessK1 = true ∧ hasMountTop witnessK1 = true := by decide
+
+/-- handler 1 replies, every other handler calls `Next` -/
+def scrEx (i : Nat) : C01.Script Bytes := if i = 1 then .stop else .next
+
+example : ∀ i, (scrEx i).isOverride = false := by
+  intro i; unfold scrEx; split <;> rfl
+
+/-- … and the two runs are what they should be on the former K1 witness (C01's example matcher:
+literal routes match their own text): `GET /api` is answered by handler 1, `GET /api/` is a 404 -/
+example :
+    C01.dispatch C01.Ex.E (regsItems scrEx (fun _ => 0) none witnessK1) 0 (b "/api") = .ok ⟨[1], .stop⟩ ∧
+    C01.dispatchS C01.Ex.E (stacksOfTable scrEx (fun _ => 0) (flatten ⟨false, true⟩ noParams witnessK1)) false 2 0
+      (b "/api") = .ok ⟨[1], .stop⟩ ∧
+    C01.dispatchS C01.Ex.E (stacksOfTable scrEx (fun _ => 0) (flatten ⟨false, true⟩ noParams witnessK1)) false 2 0
+      (b "/api/") = .ok ⟨[], .notFound⟩ := by decide
+
+/-- the locality hypothesis is not vacuous for the real key rule: a route in a 3-byte bucket -/
+example : keyC02 ⟨false, false⟩ false (b "/api/x") = 47 * 65536 + 97 * 256 + 112 := by decide
 
 end C04
